@@ -279,7 +279,7 @@ def check_factory(cfg):
         # results table rows == delivered results
         simcb = ex.extra.get("simcb")
         if simcb is not None:
-            delivered = [(e[1], e[2].get("epoch"), e[2].get("st_tuner_time")) for e in log if e[0] == "on_trial_result"]
+            delivered = [(e[1], e[2].get("epoch"), e[2].get("st_tuner_time")) for e in log if e[0] == "on_trial_result" and e[3] != "RAISED"]
             rows_ = [(int(r["trial_id"]), r.get("epoch"), r.get("st_tuner_time")) for r in simcb.results]
             if rows_ != delivered:
                 v.append(("sim:results-table-differs", f"{len(rows_)} rows vs {len(delivered)} delivered results"))
